@@ -140,6 +140,15 @@ def check(ctx) -> Result:
     prs = ctx.func(RND, "process_random_seed")
     from ..guards import Lit, facts_at
     pn = prs.params()[0]
+    _asg = {}
+    for a in walk_no_nested(prs.node):
+        if isinstance(a, ast.Assign) and isinstance(a.targets[0], ast.Name) and a.targets[0].id != pn:
+            _asg.setdefault(a.targets[0].id, []).append(a.value)
+    # local names that only ever hold int(seed)
+    conv = {nm for nm, vals in _asg.items() if all(src(v_) in (f"int({pn})", f"operator.index({pn})", f"index({pn})") for v_ in vals)}
+
+    def _is_seed(v_):
+        return (isinstance(v_, ast.Name) and (v_.id == pn or v_.id in conv)) or (isinstance(v_, ast.Call) and src(v_.func) in ("int", "operator.index", "index") and len(v_.args) == 1 and src(v_.args[0]) == pn)
     for r in [x for x in walk_no_nested(prs.node) if isinstance(x, ast.Return)]:
         v = r.value
         if v is None or (isinstance(v, ast.Constant) and v.value is None):
@@ -148,10 +157,10 @@ def check(ctx) -> Result:
             res.add(ok, "J3-seed-preserved", "process_random_seed:return None", prs.site(r), prs.qualname, "None is returned only for seed None",
                     "None (= 'no seed') is returned for a seed that is not None - e.g. a falsy integer such as 0: that seed no longer reproduces results; established: " + "; ".join(" or ".join(map(str, f)) for f in facts), construct=src(r))
         else:
-            ok = isinstance(v, ast.Name) and v.id == pn or (isinstance(v, ast.Call) and src(v.func) == "int" and src(v.args[0]) == pn)
+            ok = _is_seed(v)
             res.add(ok, "J3-seed-preserved", "process_random_seed:return", prs.site(r), prs.qualname, "returns the (integer-converted) seed itself", f"returns `{src(v)}` instead of the seed", construct=src(r))
     reb = [a for a in walk_no_nested(prs.node) if isinstance(a, ast.Assign) and src(a.targets[0]) == pn]
-    res.add(all(src(a.value) == f"int({pn})" for a in reb), "J3-seed-preserved", "process_random_seed:conversion", prs.site(), prs.qualname, "the seed is only ever re-bound to int(seed)", "the seed is re-bound to something other than int(seed)", construct=";".join(src(a) for a in reb))
+    res.add(all(_is_seed(a.value) for a in reb), "J3-seed-preserved", "process_random_seed:conversion", prs.site(), prs.qualname, "the seed is only ever re-bound to int(seed)", "the seed is re-bound to something other than int(seed)", construct=";".join(src(a) for a in reb))
     # seeds
     for qn, gen in (("random_unitary", "rvs"), ("random_permutation", "default_rng")):
         f = ctx.func(RND, qn)
